@@ -31,7 +31,7 @@ PROPS['C10'] = dict(
                  'sem_top(enc) is the meaning of the tree (structural induction over mutually recursive ghost datatypes; new_bool is proved to build the operator word enc uses); (A6) the COMPILER parser/src/cfg/switch.rs::parse_switch_case_bool, as FRAGMENTS of the real function: the prologue (size/depth checks) and the and/or/not arm (placeholder, recursion over the operands, back-patching of the absolute end index) satisfy the contract compiles(e, depth, before, after) = `after == before + enc(tree(e), |before|)` and nesting <= 9 - depth, given that contract for the recursive calls (induction step; the leaf arms are assumed to satisfy it) - plus the keyword table read from the dispatch closure (or/and/not denote their own operator). Kani: the same codec facts on the unextracted functions '
                  'over full operand domains, and each leaf arm of the real evaluate_boolean against the leaf meaning the Verus proof assumes (R5 split).'),
     verus=[dict(unit='switch', cex={'evaluate_boolean': ['c10_b_shape_nested_last_then_more', 'c10_b_shape_nested_first', 'c10_b_shape_nested_last', 'c10_b_shape_toplevel_list'], 'next': ['c10_b_case_iteration']},
-                fallback=['c10_b_shape_nested_last_then_more', 'c10_b_shape_nested_first', 'c10_b_shape_nested_last', 'c10_b_shape_toplevel_list', 'c10_b_case_iteration'])],
+                fallback=['c10_b_shape_nested_last_then_more', 'c10_b_shape_nested_first', 'c10_b_shape_nested_last', 'c10_b_shape_toplevel_list', 'c10_b_case_iteration']), dict(unit='waiting', only=['do_action_fork'])],
     kani=[
         H('keyberon', 'action::switch', 'c10_k_codec_ticks', kind='complete', functions=['keyberon/src/action/switch.rs lossy_compress_ticks', 'keyberon/src/action/switch.rs lossy_decompress_ticks', 'keyberon/src/action/switch.rs OpCode::new_ticks_since_gt', 'keyberon/src/action/switch.rs OpCode::new_ticks_since_lt', 'keyberon/src/action/switch.rs OpCode::opcode_type'], covers='all u16 thresholds x all recencies'),
         H('keyberon', 'action::switch', 'c10_k_codec_keys', kind='complete', functions=['keyberon/src/action/switch.rs OpCode::new_key', 'keyberon/src/action/switch.rs OpCode::new_key_history'], covers='all 768 key codes x all recencies'),
@@ -56,7 +56,7 @@ PROPS['C10'] = dict(
     assumptions=[
         'compiler (A6): only the prologue and the and/or/not arm of parse_switch_case_bool are verified, as fragments wrapped in synthetic signatures (rewrite Rfrag; bail_expr! -> return Err (R13), `l.iter().skip(n)` -> assumed-equivalent slice helper (R14), `ops[i] = e` -> `ops.set(i, e)` (R15)). ASSUMED: the seven leaf arms (key, key-history, key-timing, input, input-history, layer, base-layer: string matching / closures / error macros, outside both verifiers) append exactly their leaf words; the arm is entered with l = the list of the expression and op = the variant its head keyword maps to (the keyword table itself is read from the source and checked); the meta-level induction over the expression that glues prologue + arm + leaf arms; the top-level loop in parse_switch (`for op in key_match.iter() { parse_switch_case_bool(1, ..) }`)',
         'operators without operands, e.g. `(or)`, are accepted by the parser but excluded by the property statement ("every operator with at least one operand"): the compiler contract promises pwf (nesting, leaf words) and A5 additionally needs has_operands',
-        'hand-off of fired switch actions into the action queue and fork live in Layout::do_action (not under contract)',
+        'fork: the Fork arm of Layout::do_action is under contract as a fragment (unit waiting, do_action_fork: the right branch iff some NormalKey / FakeKey state carries a trigger code, exactly one branch performed; do_action stubbed with a call log; `right_triggers.contains(k)` rewritten to a helper usable in specifications, R33; the closure annotated from its own text, R12); the hand-off of fired switch actions into the action queue (the Switch arm: a `for` over the custom iterator) is NOT under contract',
     ],
     trusted_base=['rustc', 'Verus 0.2026.09.13 / Z3', 'extractor lib/rustcut.py + lib/verusgen.py (rewrites logged in rewrites_applied)'],
 )
@@ -176,7 +176,7 @@ PROPS['C05'] = dict(
     technique='contract harnesses (Kani/CBMC) for the decision: symbolic waiting state + symbolic bounded queue, decision oracle from the statement, frame, must-fail twin; Verus contracts (unbounded) on the extracted waiting_into_* methods with a ghost call log for the execution',
     design_ref='DESIGN.md section 4, C05',
     explanation='handle_hold_tap (Kani bounded AND Verus unbounded): at most one of Tap/Hold/Timeout, never NoOp; Tap iff own release queued before the timeout elapsed; Timeout exactly when it elapses; early Hold on other press (press variant) / other press+release (release variant); queue and clock untouched. waiting_into_hold/_timeout: verif_calls == old.push(decision_call(w, w.hold / w.timeout_action, ..)) - exactly one call, the right action, coordinate and delay, waiting key consumed (for extra_waiting: exactly the idx-th removed); waiting_into_tap: that call first, then only the C09 repeats; drop_waiting: no call. do_action_hold_tap (FRAGMENT: the HoldTap arm of Layout::do_action): an ordinary press creates exactly one pending decision carrying this key\'s hold / tap / timeout actions, timeout (reduced by the queueing delay in quick mode), delay, ticks 0, in the primary slot if free else as one more concurrent one, arms the tap-repress window, and runs NO action; a re-press of the same key inside the window creates no decision and runs the tap action exactly once. tick_dispatch (FRAGMENT: the `match &mut self.waiting` expression of Layout::tick): with tick_wt as a deterministic stub (decide / ticked), exactly the method matching the decision runs on the primary slot - Hold -> hold action, Timeout -> timeout action, Tap -> tap action (+ chord repeats), NoOp -> dropped, None -> nothing and the key stays undecided - and nothing is dequeued while a key is undecided; with no undecided key the oldest queued event is dequeued iff no concurrent tap-hold is pending and the one-shot input pause has run out.',
-    verus=[dict(unit='waiting', only=['waiting_into_hold', 'waiting_into_tap', 'waiting_into_timeout', 'drop_waiting', 'do_action_hold_tap', 'tick_dispatch', 'update_coord', 'update', 'lemma_sigs_push']), dict(unit='holdtap', fallback=['c05_b_handle_hold_tap'], cex={'handle_hold_tap': ['c05_b_handle_hold_tap']})],
+    verus=[dict(unit='waiting', only=['waiting_into_hold', 'waiting_into_tap', 'waiting_into_timeout', 'drop_waiting', 'do_action_hold_tap', 'do_action_prologue', 'tick_dispatch', 'update_coord', 'update', 'lemma_sigs_push']), dict(unit='holdtap', fallback=['c05_b_handle_hold_tap'], cex={'handle_hold_tap': ['c05_b_handle_hold_tap']})],
     kani=[
         H('keyberon', 'layout', 'c05_b_handle_hold_tap', kind='bounded', bound='queue <= 4 events over 3 keys', functions=[L + 'WaitingState::handle_hold_tap']),
         H('keyberon', 'layout', 'c05_b_tick_wt_hold_tap', kind='bounded', bound='queue <= 4 events over 3 keys', functions=[L + 'WaitingState::tick_wt (HoldTap arm)']),
